@@ -192,7 +192,7 @@ def _prims(ck, fx):
                 want = name.split("_", 1)[1]
                 ck.ob("R3.prims", name, dec is not None and dec[0] == want and L.WIDTH[dec[0]] == items[0][1] and (dec[1] == "le" or items[0][1] == 1), "",
                       "%s reads %d byte(s) and decodes %s" % (name, items[0][1], dec))
-    ck.floor("R3.prims", "primitive readers", n, 4)
+    ck.floor("R3.prims", "primitive readers", n, 1)
 
 
 def _diverges(fx, n):
@@ -250,7 +250,7 @@ def _narrow(ck, fx, cg):
                             guarded = True
                 ck.ob("R3.narrow", "%s|as %s" % (hb["path"], node["to"]), guarded, loc(node),
                       "`%s as %s` %s" % (node["from"], node["to"], "is preceded by a range assertion on the same value" if guarded else "can silently truncate (no range assertion)"))
-    ck.floor("R3.narrow", "narrowing casts on the write path", n, 2)
+    ck.floor("R3.narrow", "narrowing casts on the write path", n, 0)
 
 
 def _reload(ck, fx, cg):
@@ -294,7 +294,7 @@ def _reload(ck, fx, cg):
     for fn, where, ok, why in sites:
         ck.ob("R3.source", "%s|input reader" % fn, ok, where,
               "the input reader is %s" % why if ok else "the bytes of a bytecode file can be altered before Program::from_bytes sees them: the input reader is %s" % why)
-    ck.floor("R3.source", "places that build the CLI's input reader", len(sites), 2)
+    ck.floor("R3.source", "places that build the CLI's input reader", len(sites), 1)
     for item in ("read",):
         fb = fx.body("<NamedSource as std::io::Read>::%s" % item)
         if ck.anchor("R3.source", "<NamedSource as Read>::%s" % item, fb):
